@@ -852,6 +852,23 @@ def _simplify_test(t):
         if isinstance(n, ast.UnaryOp) and isinstance(n.op, ast.Not):
             n.operand = inner
         return n
+    if isinstance(t, ast.Compare) and len(t.ops) == 1 and isinstance(
+            t.ops[0], (ast.Eq, ast.NotEq)) and isinstance(
+                t.left, ast.Tuple) and isinstance(
+                    t.comparators[0], ast.Tuple) and len(
+                        t.left.elts) == len(t.comparators[0].elts) and \
+            t.left.elts and all(_pure(x) for x in list(t.left.elts) + list(
+                t.comparators[0].elts)):
+        # (a, b) == (c, d) is a == c and b == d; != is the dual
+        eq = isinstance(t.ops[0], ast.Eq)
+        parts = [ast.copy_location(ast.Compare(
+            left=a, ops=[ast.Eq() if eq else ast.NotEq()],
+            comparators=[b]), t)
+            for a, b in zip(t.left.elts, t.comparators[0].elts)]
+        if len(parts) == 1:
+            return parts[0]
+        return ast.copy_location(ast.BoolOp(
+            op=ast.And() if eq else ast.Or(), values=parts), t)
     if isinstance(t, ast.BoolOp):
         neutral = isinstance(t.op, ast.And)
         vals = [_simplify_test(v) for v in t.values]
@@ -1012,23 +1029,58 @@ def _quantifier_returns(tree):
 
 
 def _getter_of(e):
-    """('attr'|'item', key) for operator.attrgetter('a') / itemgetter(k)
-    with one constant argument."""
-    if isinstance(e, ast.Call) and len(e.args) == 1 and not e.keywords and \
-            isinstance(e.args[0], ast.Constant):
+    """('attr', [dotted names]) for operator.attrgetter('a.b', ...) and
+    ('item', [keys]) for itemgetter(k, ...) with constant arguments."""
+    if isinstance(e, ast.Call) and e.args and not e.keywords and all(
+            isinstance(a, ast.Constant) for a in e.args):
         nm = ast.unparse(e.func)
-        if nm in ('operator.attrgetter', 'attrgetter') and isinstance(
-                e.args[0].value, str) and e.args[0].value.isidentifier():
-            return ('attr', e.args[0].value)
+        if nm in ('operator.attrgetter', 'attrgetter') and all(
+                isinstance(a.value, str) and all(
+                    p.isidentifier() for p in a.value.split('.'))
+                for a in e.args):
+            return ('attr', [a.value for a in e.args])
         if nm in ('operator.itemgetter', 'itemgetter'):
-            return ('item', e.args[0].value)
+            return ('item', [a.value for a in e.args])
     return None
+
+
+def _apply_getter(g, arg, at):
+    def one(k):
+        if g[0] == 'attr':
+            cur = _plain_copy(arg)
+            for part in k.split('.'):
+                cur = ast.Attribute(value=cur, attr=part, ctx=ast.Load())
+            return cur
+        return ast.Subscript(value=_plain_copy(arg),
+                             slice=ast.Constant(value=k), ctx=ast.Load())
+    if len(g[1]) == 1:
+        new = one(g[1][0])
+    else:
+        if not _pure(arg):
+            return None
+        new = ast.Tuple(elts=[one(k) for k in g[1]], ctx=ast.Load())
+    return ast.copy_location(new, at)
 
 
 def _getter_calls(tree):
     """``g = operator.attrgetter('a')`` ... ``g(x)`` is ``x.a`` (itemgetter:
-    ``x[k]``), for a local bound once to the getter; so is the direct
+    ``x[k]``; several names: the tuple), for a name bound once - in the
+    function or at module level - to the getter; so is the direct
     ``operator.attrgetter('a')(x)``."""
+    mod_stores = {}
+    for st in getattr(tree, 'body', []):
+        if isinstance(st, ast.Assign):
+            for t in st.targets:
+                if isinstance(t, ast.Name):
+                    mod_stores[t.id] = mod_stores.get(t.id, 0) + 1
+    mod_getters = {}
+    for st in getattr(tree, 'body', []):
+        if isinstance(st, ast.Assign) and len(st.targets) == 1 and \
+                isinstance(st.targets[0], ast.Name) and mod_stores.get(
+                    st.targets[0].id) == 1:
+            g = _getter_of(st.value)
+            if g:
+                mod_getters[st.targets[0].id] = g
     for fn in ast.walk(tree):
         if not isinstance(fn, (ast.FunctionDef, ast.AsyncFunctionDef)):
             continue
@@ -1036,7 +1088,9 @@ def _getter_calls(tree):
         for n in ast.walk(fn):
             if isinstance(n, ast.Name) and isinstance(n.ctx, ast.Store):
                 stores[n.id] = stores.get(n.id, 0) + 1
-        getters = {}
+            elif isinstance(n, ast.arg):
+                stores[n.arg] = stores.get(n.arg, 0) + 1
+        getters = {k: v for k, v in mod_getters.items() if k not in stores}
         for n in ast.walk(fn):
             if isinstance(n, ast.Assign) and len(n.targets) == 1 and \
                     isinstance(n.targets[0], ast.Name) and stores.get(
@@ -1056,14 +1110,9 @@ def _getter_calls(tree):
                     g = _getter_of(node.func)
                 if g and len(node.args) == 1 and not node.keywords and not \
                         isinstance(node.args[0], ast.Starred):
-                    if g[0] == 'attr':
-                        new = ast.Attribute(value=node.args[0], attr=g[1],
-                                            ctx=ast.Load())
-                    else:
-                        new = ast.Subscript(
-                            value=node.args[0],
-                            slice=ast.Constant(value=g[1]), ctx=ast.Load())
-                    return ast.copy_location(new, node)
+                    new = _apply_getter(g, node.args[0], node)
+                    if new is not None:
+                        return new
                 return node
         if getters or any(isinstance(n, ast.Call) and isinstance(
                 n.func, ast.Call) for n in ast.walk(fn)):
